@@ -12,6 +12,8 @@ from .modelcase import qf
 
 def local_ref(path, ctx):
     """How the variable at `path` is written inside the definition of the variable at `ctx`."""
+    if path.startswith("dot(") and path.endswith(")"):
+        return "dot(" + local_ref(path[4:-1], ctx) + ")"
     p, c = path.split("."), ctx.split(".")
     if p[0] != c[0]:
         return ".".join(p[:2])          # comp.var (only component level variables are referenced across components)
@@ -30,7 +32,7 @@ def render_mmt(rec):
     lines += ["", "[engine]", "time = 0 bind time", ""]
 
     def expr(path):
-        return " ".join(local_ref(t, path) if t in vars_ else t for t in vars_[path]["toks"])
+        return " ".join(local_ref(t, path) if (t in vars_ or t.startswith("dot(")) else t for t in vars_[path]["toks"])
 
     def emit(path, depth):
         name = path.split(".")[-1]
